@@ -8,14 +8,15 @@ from __future__ import annotations
 SPECS = {}
 
 
-def spec(returns="v", total=False, unfold_on=0, name=None):
+def spec(returns="v", total=False, unfold_on=0, name=None, int_args=False, define=False, nonneg=False):
     """Mark a function as a specification function.
 
     Natively it simply runs.  Symbolically it is unfolded (one level per call chain) when its
     discriminating argument has a statically known class, and is otherwise an uninterpreted
     function of its arguments with outcome (value / raises)."""
     def deco(f):
-        f.__pyvc_spec__ = dict(returns=returns, total=total, unfold_on=unfold_on, name=name or f.__name__)
+        f.__pyvc_spec__ = dict(returns=returns, total=total, unfold_on=unfold_on, name=name or f.__name__,
+                               int_args=int_args, define=define, nonneg=nonneg)
         SPECS[f.__name__] = f
         return f
     return deco
@@ -216,3 +217,56 @@ def union_all(sets):
     for x in sets:
         out = out | x
     return out
+
+
+# ----------------------------------------------------------------------------- lemmas and ghost arithmetic
+LEMMAS = {}
+
+
+def requires(cond):
+    """Precondition of a lemma (natively an assertion)."""
+    assert cond, "lemma precondition violated"
+
+
+def lemma(f):
+    """A lemma: a function whose returned boolean is a theorem under its `requires`.  Its body is the proof
+    (it may call itself on smaller arguments = induction hypothesis, and other lemmas).  Callers get the
+    returned statement as a fact after the precondition has been checked."""
+    f.__pyvc_lemma__ = True
+    LEMMAS[f.__name__] = f
+    return f
+
+
+class Loop:
+    """Annotation of one loop: invariant / variant as functions of a namespace `v` holding the current values
+    of the function's local variables (v.name) and the entry values of its parameters (v.old_name)."""
+
+    def __init__(self, invariant, variant=None, note="", hint=None, ghost=None, ghost_update=None):
+        self.ghost = ghost or {}                # ghost variable name -> initial value (function of v or constant)
+        self.ghost_update = ghost_update        # function(v) -> dict of new ghost values, run at the end of the body
+        self.invariant = invariant
+        self.variant = variant
+        self.note = note
+        self.hint = hint        # ghost code run at the start of the body (lemma instantiations)
+
+
+def fresh_int():
+    """Symbolic-only: an arbitrary integer (used in assumed callee contracts)."""
+    raise NotImplementedError("symbolic only")
+
+
+def assume(cond):
+    """Symbolic-only: a fact assumed on the current path (postcondition of an assumed callee contract)."""
+    assert cond
+
+
+def witness(k):
+    """Ghost: register an existential witness for divides()."""
+    return None
+
+
+def divides(d, x):
+    """d | x  (exists k. x == k*d).  Symbolically decided with the registered witnesses."""
+    if d == 0:
+        return x == 0
+    return x % d == 0
